@@ -14,19 +14,21 @@ PID = "C07"
 META = dict(
     category="other",
     text=("PARTIAL, per-constraint kernel. For PointInPlane, PointOnLine, Rod (non-singular branch), ConstantAngle, ConstantOrientation, Ball, Weld, NoSlip1D, "
-          "ConstantCoordinate, ConstantSpeed, ConstantAcceleration: the real calcPosition/PositionDot/PositionDotDot (Velocity/VelocityDot, Acceleration) error virtuals and "
-          "addIn*ConstraintForcesVirtual, together with the real inline ConstraintImpl helpers they call, are executed on arbitrary poses, velocities and accelerations "
-          "of the constrained bodies in the Ancestor frame. Proved for ALL real inputs: (1) pverr == d/dt perr and (2) aerr == d/dt verr along any rigid motion "
-          "(dual numbers; for Ball / Weld translation rows / NoSlip1D the exact relation the code satisfies, with its residual term, and the strict equality on the "
-          "constraint manifold); (3) the body/mobility forces for multipliers lambda have power + lambda . (velocity error at V) for every spatial velocity V, "
-          "i.e. they are exactly G^T lambda for the G defined by the velocity error; two-body constraint forces sum to zero force and zero moment about the Ancestor "
-          "origin; (4) perr vanishes exactly on the documented manifold. NOT decided: the tree-level propagation through SimbodyMatterSubsystem (body kinematics "
-          "from q,u; Ancestor re-expression), the multiplier solve, the constraint Jacobian operators (calcG/multiplyByG/GTranspose/Pq), the coupler/"
-          "PrescribedMotion/contact/Custom constraints, Rod's singular branch."),
-    note=("Assumes real arithmetic, the state cache returning the operand kinematics, parameter accessors; trusts z3/cvc5, transliterator rules (logged), symlib shim + "
-          "the local shim in checks/_help_c07.py. Strict 'aerr == d/dt verr' off the velocity manifold fails for Ball/Weld (missing Coriolis term) and NoSlip1D "
-          "(material-point differentiation): reported, the exact relations are what is claimed."),
-    technique="symbolic execution of transliterated real code on dual numbers over the reals + SMT (z3 QF_NRA)",
+          "ConstantCoordinate, ConstantSpeed, ConstantAcceleration, CoordinateCoupler, SpeedCoupler, PrescribedMotion: the real position/velocity/acceleration error "
+          "virtuals and addIn*ConstraintForces*, together with the real inline ConstraintImpl helpers they call (findStation*, addInStation*Force, addInBodyTorque, "
+          "getBody* from arrays, getOne*/addInOne*Force), are executed on arbitrary poses, velocities and accelerations of the constrained bodies in the Ancestor "
+          "frame. Proved for ALL real inputs (z3, QF_NRA): (1) pverr == d/dt perr and (2) aerr == d/dt verr along any rigid motion, errors possibly violated "
+          "(dual numbers; units strict.<Constraint>) - these two clauses FAIL for Ball, Weld (translation rows) and NoSlip1D (open known findings F12/F13), for which "
+          "the exact relation the code satisfies, its residual term and the strict equality on the constraint manifold are proved instead; (3) the body/mobility "
+          "forces for multipliers lambda have power + lambda . (velocity error at V) for EVERY spatial velocity V, i.e. they are exactly G^T lambda for the G "
+          "defined by the velocity error, and two-/three-body constraint forces sum to zero force and zero moment about the Ancestor origin; (4) perr (verr, aerr) "
+          "is the documented quantity and vanishes exactly on the documented manifold. NOT decided: the tree-level propagation through SimbodyMatterSubsystem "
+          "(body kinematics from q,u; Ancestor re-expression; constrained-body/mobility packing), the multiplier solve, the constraint Jacobian operators "
+          "(calcG / multiplyByG / multiplyByGTranspose / calcPq), Pq == d perr/dq, the contact constraints, user Custom constraints, Rod's singular branch."),
+    note=("Assumes real arithmetic, the state cache returning the operand kinematics, parameter accessors, and for the Function-based constraints that "
+          "Function::calcDerivative is the derivative of calcValue (C41); trusts z3/cvc5, transliterator rules (logged), symlib shim + the local shim in "
+          "checks/_help_c07.py. Open known findings F12 (Ball/Weld) and F13 (NoSlip1D): strict derivative clauses fail off the manifold, reproduced natively."),
+    technique="symbolic execution of transliterated real code on dual numbers over the reals + SMT (z3 QF_NRA), lemma chains",
     design_ref="2.3 route M3 (C07 added after the design; per-constraint kernel only)")
 
 T = 30000
@@ -37,6 +39,9 @@ def want(name):
     return not ONLY or re.search(ONLY, name)
 
 
+_LEMMA_DONE = set()
+
+
 def sides(bodies):
     out = []
     for b in bodies:
@@ -44,9 +49,44 @@ def sides(bodies):
     return out
 
 
+def inverse_lemmas(B, bodies):
+    """lemma chain, step 0: for every body whose inverse transform the code applies, R (~R y) == y along the motion (value and d/dt
+    parts; y an OPAQUE moving vector; |q| == 1). checks/_help_c07.RM.__mul__ folds R * (~R * y) back to y on the strength of this."""
+    for b in bodies:
+        if b.rot != "quat" or b.name in _LEMMA_DONE:
+            continue
+        _LEMMA_DONE.add(b.name)
+        y = Vec(*[D(z3.Real("g_y%d" % i), z3.Real("g_yd%d" % i)) for i in range(3)])
+        R1 = b.X1.R()
+        lhs = S.Mat.__mul__(R1, S.Mat.__mul__(~R1, y))
+        peq(B, "lemma (body %s): R_AB (~R_AB y) == y for every vector y, R_AB = R(q), |q| == 1" % b.name, plain(lhs), plain(y), b.side, "lemma.rotation", "Rotation/InverseRotation algebra (C27)", minimal=True)
+        peq(B, "lemma (body %s): d/dt [R_AB (~R_AB y)] == d/dt y along d/dt R_AB = [w_AB]x R_AB" % b.name, H.dpart(lhs), H.dpart(y), b.side, "lemma.rotation", "Rotation/InverseRotation algebra (C27)", minimal=True)
+
+
 def run_err(fn, st, arr, m, gen=()):
     out = [None] * m
     fn(st, arr, list(gen), out)
+    return out
+
+
+def peq(B, name, lhs, rhs, side, unit, function=None, timeout_ms=T, minimal=False):
+    """B.prove_eq with a cheap first attempt: many goals here are polynomial IDENTITIES once the code has been executed, so they are
+    first tried with NO hypotheses (a goal proved from fewer hypotheses is proved); only a `discharged` answer of that attempt is
+    accepted, anything else (a counter-model without the hypotheses means nothing) falls through to the full hypothesis set."""
+    full = list(side) if minimal else B._with_env(side)
+    second = B.ctx.tier == "thorough" and len(B.ctx.obligations) < 600
+    out = []
+    for i, g in S.eq_all(lhs, rhs):
+        nm = "%s[%d]" % (name, i)
+        r = None
+        if full:
+            r0 = S.prove(g, side=[], timeout_ms=min(4000, timeout_ms), name=nm, outdir=os.path.join(B.ctx.out, "smt2"), second_opinion=second)
+            if r0.status == "discharged":
+                r = r0
+        if r is None:
+            r = S.prove(g, side=full, timeout_ms=timeout_ms, name=nm, outdir=os.path.join(B.ctx.out, "smt2"), second_opinion=second)
+        B.record(nm, unit, r, function, "identity %s" % name)
+        out.append(r)
     return out
 
 
@@ -78,19 +118,27 @@ class Holo:
         return P, W
 
 
-def std_clauses(B, name, h, side, U, fn, exact=True, timeout=T):
-    if exact:
-        B.prove_eq("%s: (1) pverr == d/dt perr (any pose, any velocity; perr possibly violated)" % name,
-                   Vec([D(der(e)) for e in h.perr1]), Vec(h.pverr0), side, U, fn + "::calcPositionDotErrorsVirtual", timeout_ms=timeout)
-        B.prove_eq("%s: (2) paerr == d/dt pverr (any pose, velocity, acceleration; perr, pverr possibly violated)" % name,
-                   Vec([D(der(e)) for e in h.pverr1]), Vec(h.paerr0), side, U, fn + "::calcPositionDotDotErrorsVirtual", timeout_ms=timeout)
+def strict_clauses(B, cname, perr1, pverr0, pverr1, paerr0, side, fn, timeout=T, vel_level=False):
+    """the two derivative clauses exactly as the property states them (all states, errors possibly violated), in their own unit
+    strict.<Constraint>: they hold for most constraints; for Ball, Weld (translation rows) and NoSlip1D they FAIL today (open known
+    findings F12 / F13) and the exact relations the code does satisfy are proved in the ordinary units instead."""
+    U = "strict." + cname
+    if perr1 is not None:
+        peq(B, "verr == d/dt perr (any pose, any velocity; perr possibly violated)", Vec([D(der(e)) for e in perr1]), Vec(pverr0), side, U,
+                   fn + "::calcPositionDotErrorsVirtual", timeout_ms=timeout)
+    peq(B, "aerr == d/dt verr (any pose, velocity, acceleration; errors possibly violated)", Vec([D(der(e)) for e in pverr1]), Vec(paerr0), side, U,
+               fn + ("::calcVelocityDotErrorsVirtual" if vel_level else "::calcPositionDotDotErrorsVirtual"), timeout_ms=timeout)
+
+
+def std_clauses(B, name, h, side, U, fn, timeout=T):
+    strict_clauses(B, U, h.perr1, h.pverr0, h.pverr1, h.paerr0, side, fn, timeout)
     P, W = h.power_goal()
-    B.prove_eq("%s: (3) power of the constraint forces at ANY spatial velocities V == + lambda . pverr(V)  (forces == G^T lambda)" % name,
+    peq(B, "%s: (3) power of the constraint forces at ANY spatial velocities V == + lambda . pverr(V)  (forces == G^T lambda)" % name,
                P, W, side, U, fn + "::addInPositionConstraintForcesVirtual", timeout_ms=timeout)
     if len(h.bodies) >= 2:
         f, mo = H.net(h.F, [b.X0.p() for b in h.bodies])
-        B.prove_eq("%s: (3) constraint forces sum to zero force" % name, f, Vec(0, 0, 0), side, U, fn + "::addInPositionConstraintForcesVirtual", timeout_ms=timeout)
-        B.prove_eq("%s: (3) constraint forces sum to zero moment about the Ancestor origin" % name, mo, Vec(0, 0, 0), side, U, fn + "::addInPositionConstraintForcesVirtual", timeout_ms=timeout)
+        peq(B, "%s: (3) constraint forces sum to zero force" % name, f, Vec(0, 0, 0), side, U, fn + "::addInPositionConstraintForcesVirtual", timeout_ms=timeout)
+        peq(B, "%s: (3) constraint forces sum to zero moment about the Ancestor origin" % name, mo, Vec(0, 0, 0), side, U, fn + "::addInPositionConstraintForcesVirtual", timeout_ms=timeout)
 
 
 def ball_like(B, name, rows, h, off, bB, side, U, fn):
@@ -98,15 +146,15 @@ def ball_like(B, name, rows, h, off, bB, side, U, fn):
     code satisfies are proved, then the strict clauses of the property on the constraint manifold (by instantiation)."""
     pe1 = Vec(h.perr1[off:off + 3]); ve0 = Vec(h.pverr0[off:off + 3]); ve1 = Vec(h.pverr1[off:off + 3]); ae0 = Vec(h.paerr0[off:off + 3])
     w = bB.w
-    B.prove_eq("%s%s: (1') pverr == d/dt perr - w_AB x perr  (perr is reported in A, differentiated in the base body B; any pose/velocity, perr possibly violated)" % (name, rows),
+    peq(B, "%s%s: (1') pverr == d/dt perr - w_AB x perr  (perr is reported in A, differentiated in the base body B; any pose/velocity, perr possibly violated)" % (name, rows),
                ve0, H.dpart(pe1) - cross(w, plain(pe1)), side, U, fn + "::calcPositionDotErrorsVirtual", timeout_ms=T)
-    B.prove_eq("%s%s: (2') paerr == d/dt pverr + w_AB x pverr  (any pose/velocity/acceleration; exact residual of the strict clause)" % (name, rows),
+    peq(B, "%s%s: (2') paerr == d/dt pverr + w_AB x pverr  (any pose/velocity/acceleration; exact residual of the strict clause)" % (name, rows),
                ae0, H.dpart(ve1) + cross(w, plain(ve1)), side, U, fn + "::calcPositionDotDotErrorsVirtual", timeout_ms=T)
     gv, gd, gp, gw = v3("g_e1"), v3("g_d"), v3("g_e0"), v3("g_w")
     for k, sign, what in ((1, -1, "pverr == d/dt perr whenever perr == 0"), (2, 1, "paerr == d/dt pverr whenever pverr == 0")):
         rel = gd + cross(gw, gp) if sign > 0 else gd - cross(gw, gp)
         hyp = [val(gv[i]) == val(rel[i]) for i in range(3)] + [val(gp[i]) == 0 for i in range(3)]
-        B.prove_eq("%s%s: (%d) %s (on the manifold; instance of (%d') over generalised vectors)" % (name, rows, k, what, k), gv, gd, hyp, U, fn, minimal=True)
+        peq(B, "%s%s: (%d) %s (on the manifold; instance of (%d') over generalised vectors)" % (name, rows, k, what, k), gv, gd, hyp, U, fn, minimal=True)
 
 
 def rod(ctx, B, C, tiny):
@@ -124,11 +172,21 @@ def rod(ctx, B, C, tiny):
         ctx.undecide("Rod: the singularity test `r < TinyReal` was not met during symbolic execution (code restructured?)")
     side = [tiny > 0] + path + list(S.ENV.side) + [d_[2] for d_ in S.ENV.defs]
     std_clauses(B, "Rod (non-singular)", h, side, U, fn, timeout=60000)
-    # (4) manifold
+    # (4) manifold, as a lemma chain: (a) what is under the code's sqrt, (b) perr in terms of the root, (c) the meaning of sqrt over an OPAQUE radicand
     sep = bB.X0 * pB - bF.X0 * pF
-    pe = val(plain(Vec(h.perr1))[0])
-    B.prove_bool("Rod: (4) perr == 0  ==>  |p_B - p_F|^2 == length^2", val(sep.normSqr()) == d * d, side + [pe == 0], U, fn + "::calcPositionErrorsVirtual", timeout_ms=T)
-    B.prove_bool("Rod: (4) |p_B - p_F|^2 == length^2 and length >= 0  ==>  perr == 0", pe == 0, side + [val(sep.normSqr()) == d * d, d >= 0], U, fn + "::calcPositionErrorsVirtual", timeout_ms=T)
+    pe = plain(Vec(h.perr1))[0]
+    roots = [c for c in S.ENV.side if z3.is_and(c) and c.num_args() == 2 and z3.is_eq(c.arg(1))]
+    if len(roots) != 1:
+        ctx.undecide("Rod: expected exactly one sqrt side condition, found %d" % len(roots))
+    else:
+        rv, radicand = roots[0].arg(0).arg(0), roots[0].arg(1).arg(1)
+        peq(B, "Rod: (4a) the radicand of the code's sqrt is |p_B - p_F|^2 (stations of B and F located in A)", D(radicand), sep.normSqr(), [], U, fn + "::calcPositionErrorsVirtual", minimal=True)
+        peq(B, "Rod: (4b) perr == r - length with r the code's sqrt", pe, D(rv) - D(d), [], U, fn + "::calcPositionErrorsVirtual", minimal=True)
+        gr, gE, gd = z3.Reals("g_r g_E g_len")
+        sq = [gr >= 0, gr * gr == gE]
+        B.prove_bool("Rod: (4c) r >= 0, r^2 == E, r - length == 0  ==>  E == length^2   (E opaque: holds for the radicand of (4a))", gE == gd * gd, sq + [gr - gd == 0], U, fn + "::calcPositionErrorsVirtual", minimal=True)
+        B.prove_bool("Rod: (4c) r >= 0, r^2 == E, E == length^2, length >= 0  ==>  r - length == 0   (perr vanishes exactly when the separation equals the rod length)", gr - gd == 0,
+                     sq + [gE == gd * gd, gd >= 0], U, fn + "::calcPositionErrorsVirtual", minimal=True)
     s_ = z3.Solver(); s_.set("timeout", 20000); s_.add(*side)
     ctx.add(Obligation("guard:Rod non-singular path conditions satisfiable", "guards", "z3", "discharged" if s_.check() == z3.sat else "undecided", 0, "reachability guard"))
     S.reset_env()
@@ -140,32 +198,33 @@ def noslip(ctx, B, C):
     bodies = [bC, b0, b1]
     P, n = v3("P"), v3("n")
     o = C["NoSlip1D"](); o.caseBody, o.movingBody0, o.movingBody1 = 0, 1, 2
-    side = sides(bodies)
+    side = sides(bodies); inverse_lemmas(B, bodies)
     mk = lambda k: State([getattr(b, "X%d" % k) for b in bodies], [getattr(b, "V%d" % k) for b in bodies], contact=Pair(P, n))
     verr0 = run_err(o.verr, mk(0), [b.V0 for b in bodies], 1)
     verr1 = run_err(o.verr, mk(1), [b.V1 for b in bodies], 1)
     vaerr0 = run_err(o.vaerr, mk(0), [b.A0 for b in bodies], 1)
+    strict_clauses(B, U, None, None, verr1, vaerr0, side, fn, vel_level=True)
     p_AP, n_A = bC.X0 * P, bC.X0.R() * n
     v_AP = bC.v + cross(bC.w, bC.X0.R() * P)                    # velocity of P as a material point of the case
     vm = [b.v + cross(b.w, p_AP - b.X0.p()) for b in (b0, b1)]     # velocities of the coincident material points of the two moving bodies
     resid = dot(cross(b1.w, v_AP - vm[1]) - cross(b0.w, v_AP - vm[0]), n_A)
-    B.prove_eq("NoSlip1D: (2') d/dt verr == vaerr + [w1 x (v_P - v_P1) - w0 x (v_P - v_P0)] . n_A  (the code differentiates the coincident MATERIAL points; exact residual)",
+    peq(B, "NoSlip1D: (2') d/dt verr == vaerr + [w1 x (v_P - v_P1) - w0 x (v_P - v_P0)] . n_A  (the code differentiates the coincident MATERIAL points; exact residual)",
                D(der(verr1[0])), vaerr0[0] + resid, side, U, fn + "::calcVelocityDotErrorsVirtual", timeout_ms=60000)
     ga, gb, gc, gn, g0, g1 = v3("g_a"), v3("g_b"), v3("g_c"), v3("g_n"), v3("g_w0"), v3("g_w1")
-    B.prove_eq("NoSlip1D: (2) the residual vanishes when the contact point moves with both coincident material points (v_P == v_P0 == v_P1): vaerr == d/dt verr there",
+    peq(B, "NoSlip1D: (2) the residual vanishes when the contact point moves with both coincident material points (v_P == v_P0 == v_P1): vaerr == d/dt verr there",
                dot(cross(g1, ga - gb) - cross(g0, ga - gc), gn), 0, [val(ga[i]) == val(gb[i]) for i in range(3)] + [val(ga[i]) == val(gc[i]) for i in range(3)], U, fn, minimal=True)
-    B.prove_eq("NoSlip1D: (4) verr == (v_P1 - v_P0) . n_A with P0, P1 the material points of the moving bodies at the contact point", verr0[0], dot(vm[1] - vm[0], n_A), side, U,
+    peq(B, "NoSlip1D: (4) verr == (v_P1 - v_P0) . n_A with P0, P1 the material points of the moving bodies at the contact point", verr0[0], dot(vm[1] - vm[0], n_A), side, U,
                fn + "::calcVelocityErrorsVirtual", timeout_ms=T)
     lam = z3.Real("lam0")
     F = zero_forces(3)
     o.vforce(mk(0), [D(lam)], F, [])
     verrU = run_err(o.verr, mk(0), [b.U for b in bodies], 1)
-    B.prove_eq("NoSlip1D: (3) power of the constraint forces at ANY spatial velocities V == + lambda . verr(V)  (forces == G^T lambda)", H.power(F, [b.U for b in bodies]), D(lam) * verrU[0], side, U,
+    peq(B, "NoSlip1D: (3) power of the constraint forces at ANY spatial velocities V == + lambda . verr(V)  (forces == G^T lambda)", H.power(F, [b.U for b in bodies]), D(lam) * verrU[0], side, U,
                fn + "::addInVelocityConstraintForcesVirtual", timeout_ms=T)
     f, mo = H.net(F, [b.X0.p() for b in bodies])
-    B.prove_eq("NoSlip1D: (3) constraint forces sum to zero force", f, Vec(0, 0, 0), side, U, fn + "::addInVelocityConstraintForcesVirtual", timeout_ms=T)
-    B.prove_eq("NoSlip1D: (3) constraint forces sum to zero moment about the Ancestor origin", mo, Vec(0, 0, 0), side, U, fn + "::addInVelocityConstraintForcesVirtual", timeout_ms=T)
-    B.prove_eq("NoSlip1D: (3) no force on the case body", Vec(*H.elements(F[0])), Vec(0, 0, 0, 0, 0, 0), side, U, fn + "::addInVelocityConstraintForcesVirtual", timeout_ms=T)
+    peq(B, "NoSlip1D: (3) constraint forces sum to zero force", f, Vec(0, 0, 0), side, U, fn + "::addInVelocityConstraintForcesVirtual", timeout_ms=T)
+    peq(B, "NoSlip1D: (3) constraint forces sum to zero moment about the Ancestor origin", mo, Vec(0, 0, 0), side, U, fn + "::addInVelocityConstraintForcesVirtual", timeout_ms=T)
+    peq(B, "NoSlip1D: (3) no force on the case body", Vec(*H.elements(F[0])), Vec(0, 0, 0, 0, 0, 0), side, U, fn + "::addInVelocityConstraintForcesVirtual", timeout_ms=T)
 
 
 def coordinate(ctx, B, C):
@@ -181,13 +240,12 @@ def coordinate(ctx, B, C):
     pverr0 = run_err(o.pverr, st, [], 1, [D(qd[i]) for i in range(2)])
     pverr1 = run_err(o.pverr, st, [], 1, [D(qd[i], qdd[i]) for i in range(2)])
     paerr0 = run_err(o.paerr, st, [], 1, [D(qdd[i]) for i in range(2)])
-    B.prove_eq("ConstantCoordinate: (1) pverr == d/dt perr", D(der(perr1[0])), pverr0[0], [], U, fn + "::calcPositionDotErrorsVirtual")
-    B.prove_eq("ConstantCoordinate: (2) paerr == d/dt pverr", D(der(pverr1[0])), paerr0[0], [], U, fn + "::calcPositionDotDotErrorsVirtual")
-    B.prove_eq("ConstantCoordinate: (4) perr == q - position", perr1[0], D(q[1]) - D(p0), [], U, fn + "::calcPositionErrorsVirtual")
+    strict_clauses(B, U, perr1, pverr0, pverr1, paerr0, [], fn)
+    peq(B, "ConstantCoordinate: (4) perr == q - position", perr1[0], D(q[1]) - D(p0), [], U, fn + "::calcPositionErrorsVirtual")
     qF = [D(0), D(0)]
     o.pforce(st, [D(lam)], [], qF)
     pvU = run_err(o.pverr, st, [], 1, [D(qu[i]) for i in range(2)])
-    B.prove_eq("ConstantCoordinate: (3) q-forces . qdot' == + lambda . pverr(qdot') for ANY qdot'  (forces == Pq^T lambda)", qF[0] * D(qu[0]) + qF[1] * D(qu[1]), D(lam) * pvU[0], [], U, fn + "::addInPositionConstraintForcesVirtual")
+    peq(B, "ConstantCoordinate: (3) q-forces . qdot' == + lambda . pverr(qdot') for ANY qdot'  (forces == Pq^T lambda)", qF[0] * D(qu[0]) + qF[1] * D(qu[1]), D(lam) * pvU[0], [], U, fn + "::addInPositionConstraintForcesVirtual")
     # ---- ConstantSpeed: verr = u - s, vaerr = udot
     U, fn = "ConstantSpeed", "Constraint::ConstantSpeedImpl"
     s0 = z3.Real("speed0")
@@ -195,12 +253,12 @@ def coordinate(ctx, B, C):
     st = State([], [], speed=D(s0), **maps)
     verr1 = run_err(o.verr, st, [], 1, [D(qd[i], qdd[i]) for i in range(2)])
     vaerr0 = run_err(o.vaerr, st, [], 1, [D(qdd[i]) for i in range(2)])
-    B.prove_eq("ConstantSpeed: (2) vaerr == d/dt verr", D(der(verr1[0])), vaerr0[0], [], U, fn + "::calcVelocityDotErrorsVirtual")
-    B.prove_eq("ConstantSpeed: (4) verr == u - speed", verr1[0], D(qd[1]) - D(s0), [], U, fn + "::calcVelocityErrorsVirtual")
+    strict_clauses(B, U, None, None, verr1, vaerr0, [], fn, vel_level=True)
+    peq(B, "ConstantSpeed: (4) verr == u - speed", verr1[0], D(qd[1]) - D(s0), [], U, fn + "::calcVelocityErrorsVirtual")
     mob = [D(0), D(0)]
     o.vforce(st, [D(lam)], [], mob)
     vU = run_err(o.verr, st, [], 1, [D(qu[i]) for i in range(2)]); vZ = run_err(o.verr, st, [], 1, [D(0), D(0)])
-    B.prove_eq("ConstantSpeed: (3) mobility forces . u' == + lambda . (verr(u') - verr(0)) for ANY u'  (forces == V^T lambda)", mob[0] * D(qu[0]) + mob[1] * D(qu[1]), D(lam) * (vU[0] - vZ[0]), [], U,
+    peq(B, "ConstantSpeed: (3) mobility forces . u' == + lambda . (verr(u') - verr(0)) for ANY u'  (forces == V^T lambda)", mob[0] * D(qu[0]) + mob[1] * D(qu[1]), D(lam) * (vU[0] - vZ[0]), [], U,
                fn + "::addInVelocityConstraintForcesVirtual")
     # ---- ConstantAcceleration: aerr = udot - a
     U, fn = "ConstantAcceleration", "Constraint::ConstantAccelerationImpl"
@@ -208,12 +266,85 @@ def coordinate(ctx, B, C):
     o = C["ConstantAcceleration"](); o.theMobilizer, o.whichMobility = 0, 1
     st = State([], [], acceleration=D(a0), **maps)
     ae = run_err(o.aerr, st, [], 1, [D(qdd[i]) for i in range(2)])
-    B.prove_eq("ConstantAcceleration: (4) aerr == udot - acceleration", ae[0], D(qdd[1]) - D(a0), [], U, fn + "::calcAccelerationErrorsVirtual")
+    peq(B, "ConstantAcceleration: (4) aerr == udot - acceleration", ae[0], D(qdd[1]) - D(a0), [], U, fn + "::calcAccelerationErrorsVirtual")
     mob = [D(0), D(0)]
     o.aforce(st, [D(lam)], [], mob)
     aU = run_err(o.aerr, st, [], 1, [D(qu[i]) for i in range(2)]); aZ = run_err(o.aerr, st, [], 1, [D(0), D(0)])
-    B.prove_eq("ConstantAcceleration: (3) mobility forces . udot' == + lambda . (aerr(udot') - aerr(0)) for ANY udot'  (forces == A^T lambda)", mob[0] * D(qu[0]) + mob[1] * D(qu[1]), D(lam) * (aU[0] - aZ[0]), [], U,
+    peq(B, "ConstantAcceleration: (3) mobility forces . udot' == + lambda . (aerr(udot') - aerr(0)) for ANY udot'  (forces == A^T lambda)", mob[0] * D(qu[0]) + mob[1] * D(qu[1]), D(lam) * (aU[0] - aZ[0]), [], U,
                fn + "::addInAccelerationConstraintForcesVirtual")
+
+
+def fn_args_ok(B, name, fn_, expected, U, f):
+    """the abstract Function is only meaningful at the current point: every recorded call must have been made there"""
+    ok = all(len(c) == len(expected) and all(z3.eq(z3.simplify(a), z3.simplify(val(e))) for a, e in zip(c, expected)) for c in fn_.calls) and len(fn_.calls) > 0
+    B.prove_bool("%s: every Function evaluation (%d calls) is made at the current arguments" % (name, len(fn_.calls)), z3.BoolVal(bool(ok)), [], U, f, minimal=True)
+
+
+def couplers(ctx, B, C):
+    lam = z3.Real("lam0")
+    IL = H.IntList
+    # ---- CoordinateCoupler: perr = f(q0,q1,q2) on three coordinates of two mobilizers
+    U, fn = "CoordinateCoupler", "Constraint::CoordinateCouplerImpl"
+    keys = [(0, 0), (0, 1), (1, 0)]
+    q, qd, qdd, qu = [[z3.Real("%s%d" % (nm, i)) for i in range(3)] for nm in ("kq", "kqd", "kqdd", "kqu")]
+    slot = {k: i for i, k in enumerate(keys)}
+    F = H.FnJet("fcc", 3)
+    o = C["CoordinateCoupler"](); o.function, o.coordBodies, o.coordIndices, o.temp = F, IL([k[0] for k in keys]), IL([k[1] for k in keys]), IL([None] * 3)
+    st0 = State([], [], qmap=slot, Q={k: D(q[i]) for k, i in slot.items()}, QD={k: D(qd[i]) for k, i in slot.items()})
+    st1 = State([], [], qmap=slot, Q={k: D(q[i], qd[i]) for k, i in slot.items()}, QD={k: D(qd[i], qdd[i]) for k, i in slot.items()})
+    perr1 = run_err(o.perr, st1, [], 1, [D(q[i], qd[i]) for i in range(3)])
+    pverr0 = run_err(o.pverr, st0, [], 1, [D(qd[i]) for i in range(3)])
+    pverr1 = run_err(o.pverr, st1, [], 1, [D(qd[i], qdd[i]) for i in range(3)])
+    paerr0 = run_err(o.paerr, st0, [], 1, [D(qdd[i]) for i in range(3)])
+    strict_clauses(B, U, perr1, pverr0, pverr1, paerr0, [], fn)
+    peq(B, "CoordinateCoupler: (4) perr == f(q)", perr1[0], D(F.f), [], U, fn + "::calcPositionErrors")
+    qF = [D(0)] * 3
+    o.pforce(st0, [D(lam)], [], qF)
+    pvU = run_err(o.pverr, st0, [], 1, [D(qu[i]) for i in range(3)])
+    peq(B, "CoordinateCoupler: (3) q-forces . qdot' == + lambda . pverr(qdot') for ANY qdot'  (forces == Pq^T lambda)", sum((qF[i] * D(qu[i]) for i in range(1, 3)), qF[0] * D(qu[0])), D(lam) * pvU[0], [], U,
+        fn + "::addInPositionConstraintForces")
+    fn_args_ok(B, "CoordinateCoupler", F, [D(x) for x in q], U, fn)
+    # ---- PrescribedMotion: perr = q - f(t)
+    U, fn = "PrescribedMotion", "Constraint::PrescribedMotionImpl"
+    t = z3.Real("time")
+    F = H.FnJet("fpm", 1)
+    o = C["PrescribedMotion"](); o.function, o.coordBody, o.coordIndex, o.temp = F, 0, 1, IL([None])
+    maps = dict(qmap={(0, 0): 0, (0, 1): 1})
+    st0 = State([], [], time=D(t), **maps); st1 = State([], [], time=D(t, 1), **maps)
+    q, qd, qdd, qu = [[z3.Real("%s%d" % (nm, i)) for i in range(2)] for nm in ("mq", "mqd", "mqdd", "mqu")]
+    perr1 = run_err(o.perr, st1, [], 1, [D(q[i], qd[i]) for i in range(2)])
+    pverr0 = run_err(o.pverr, st0, [], 1, [D(qd[i]) for i in range(2)])
+    pverr1 = run_err(o.pverr, st1, [], 1, [D(qd[i], qdd[i]) for i in range(2)])
+    paerr0 = run_err(o.paerr, st0, [], 1, [D(qdd[i]) for i in range(2)])
+    strict_clauses(B, U, perr1, pverr0, pverr1, paerr0, [], fn)
+    peq(B, "PrescribedMotion: (4) perr == q - f(t)", perr1[0], D(q[1]) - D(F.f), [], U, fn + "::calcPositionErrors")
+    qF = [D(0), D(0)]
+    o.pforce(st0, [D(lam)], [], qF)
+    pvU = run_err(o.pverr, st0, [], 1, [D(qu[i]) for i in range(2)]); pvZ = run_err(o.pverr, st0, [], 1, [D(0), D(0)])
+    peq(B, "PrescribedMotion: (3) q-forces . qdot' == + lambda . (pverr(qdot') - pverr(0)) for ANY qdot'", qF[0] * D(qu[0]) + qF[1] * D(qu[1]), D(lam) * (pvU[0] - pvZ[0]), [], U, fn + "::addInPositionConstraintForces")
+    fn_args_ok(B, "PrescribedMotion", F, [D(t)], U, fn)
+    # ---- SpeedCoupler: verr = f(u0, u1, q) with q a coordinate of some other mobilized body
+    U, fn = "SpeedCoupler", "Constraint::SpeedCouplerImpl"
+    u, ud, uu = [[z3.Real("%s%d" % (nm, i)) for i in range(2)] for nm in ("su", "sud", "suu")]
+    qq, qqd = z3.Reals("sq sqd")
+    F = H.FnJet("fsc", 3)
+    skeys = [(0, 1), (1, 0)]; slot = {k: i for i, k in enumerate(skeys)}
+    o = C["SpeedCoupler"](); o.function, o.temp = F, IL([None] * 3)
+    o.speedBodies, o.speedIndices, o.coordBodies, o.coordIndices = IL([k[0] for k in skeys]), IL([k[1] for k in skeys]), IL([5]), IL([2])
+    st0 = State([], [], umap=slot, Uv={k: D(u[i]) for k, i in slot.items()}, MQ={(5, 2): D(qq)}, MQD={(5, 2): D(qqd)})
+    st1 = State([], [], umap=slot, Uv={k: D(u[i], ud[i]) for k, i in slot.items()}, MQ={(5, 2): D(qq, qqd)}, MQD={(5, 2): D(qqd)})
+    verr1 = run_err(o.verr, st1, [], 1, [D(u[i], ud[i]) for i in range(2)])
+    vaerr0 = run_err(o.vaerr, st0, [], 1, [D(ud[i]) for i in range(2)])
+    strict_clauses(B, U, None, None, verr1, vaerr0, [], fn, vel_level=True)
+    peq(B, "SpeedCoupler: (4) verr == f(u, q)", verr1[0], D(F.f), [], U, fn + "::calcVelocityErrors")
+    mob = [D(0), D(0)]
+    o.vforce(st0, [D(lam)], [], mob)
+    # G = d verr / d u at the current point: directional derivative of the real verr along an arbitrary u' (q held fixed)
+    stU = State([], [], umap=slot, Uv={k: D(u[i]) for k, i in slot.items()}, MQ={(5, 2): D(qq)}, MQD={(5, 2): D(qqd)})
+    vdir = run_err(o.verr, stU, [], 1, [D(u[i], uu[i]) for i in range(2)])
+    peq(B, "SpeedCoupler: (3) mobility forces . u' == + lambda . (d verr/d u)[u'] for ANY u'  (forces == V^T lambda)", mob[0] * D(uu[0]) + mob[1] * D(uu[1]), D(lam) * D(der(vdir[0])), [], U,
+        fn + "::addInVelocityConstraintForces")
+    fn_args_ok(B, "SpeedCoupler", F, [D(u[0]), D(u[1]), D(qq)], U, fn)
 
 
 def main(ctx):
@@ -224,19 +355,20 @@ def main(ctx):
         ctx.undecide("extraction: %s" % e)
         return ctx.finish()
     S.reset_env()
-    nguards = 0
+    if not ONLY:
+        start_native(ctx)       # debug subsets (VERIF_ONLY) build the native driver on demand only
     # ------------------------------------------------------------------ PointInPlane
     if want("PointInPlane"):
         U, fn = "PointInPlane", "Constraint::PointInPlaneImpl"
         bB, bF = Kin("B", "quat"), Kin("F", "free")
         n, s, hh = v3("n"), v3("s"), z3.Real("h")
         o = C["PointInPlane"](); o.planeBody, o.followerBody, o.defaultPlaneNormal, o.defaultPlaneHeight, o.defaultFollowerPoint = 0, 1, n, D(hh), s
-        side = sides([bB, bF])
+        side = sides([bB, bF]); inverse_lemmas(B, [bB, bF])
         h = Holo(o, [bB, bF], 1, lambda X, V: State(X, V))
         std_clauses(B, "PointInPlane", h, side, U, fn)
         # (4) manifold: perr == 0 <=> the follower point, measured in the plane body's frame, satisfies n . p == h
         pS_B = (~bB.X0) * (bF.X0 * s)
-        B.prove_eq("PointInPlane: (4) perr == n . (follower point in B) - h  (zero exactly when the point lies in the plane)", h.perr1[0], dot(pS_B, n) - D(hh), side, U, fn + "::calcPositionErrorsVirtual", timeout_ms=T)
+        peq(B, "PointInPlane: (4) perr == n . (follower point in B) - h  (zero exactly when the point lies in the plane)", h.perr1[0], dot(pS_B, n) - D(hh), side, U, fn + "::calcPositionErrorsVirtual", timeout_ms=T)
 
     # ------------------------------------------------------------------ PointOnLine
     if want("PointOnLine"):
@@ -244,11 +376,11 @@ def main(ctx):
         bB, bF = Kin("B", "quat"), Kin("F", "free")
         z, P, s, x, y = v3("z"), v3("P"), v3("s"), v3("x"), v3("y")       # x, y: the two plane normals (any vectors; perpendicularity to z is not needed)
         o = C["PointOnLine"](); o.lineBody, o.followerBody, o.defaultLineDirection, o.defaultPointOnLine, o.defaultFollowerPoint, o.x, o.y = 0, 1, z, P, s, x, y
-        side = sides([bB, bF])
+        side = sides([bB, bF]); inverse_lemmas(B, [bB, bF])
         h = Holo(o, [bB, bF], 2, lambda X, V: State(X, V))
         std_clauses(B, "PointOnLine", h, side, U, fn)
         pS_B = (~bB.X0) * (bF.X0 * s)
-        B.prove_eq("PointOnLine: (4) perr == ((follower point in B) - P) . (x, y)  (zero exactly when the point lies on both planes through P, i.e. on the line)",
+        peq(B, "PointOnLine: (4) perr == ((follower point in B) - P) . (x, y)  (zero exactly when the point lies on both planes through P, i.e. on the line)",
                    Vec(h.perr1), Vec(dot(pS_B - P, x), dot(pS_B - P, y)), side, U, fn + "::calcPositionErrorsVirtual", timeout_ms=T)
     # ------------------------------------------------------------------ ConstantAngle
     if want("ConstantAngle"):
@@ -258,7 +390,7 @@ def main(ctx):
         o = C["ConstantAngle"](); o.B, o.F, o.defaultAxisB, o.defaultAxisF, o.cosineOfDefaultAngle = 0, 1, ab, af, D(c0)
         h = Holo(o, [bB, bF], 1, lambda X, V: State(X, V))
         std_clauses(B, "ConstantAngle", h, [], U, fn)
-        B.prove_eq("ConstantAngle: (4) perr == (R_AB axisB) . (R_AF axisF) - cos(angle)", h.perr1[0], dot(bB.X0.R() * ab, bF.X0.R() * af) - D(c0), [], U, fn + "::calcPositionErrorsVirtual")
+        peq(B, "ConstantAngle: (4) perr == (R_AB axisB) . (R_AF axisF) - cos(angle)", h.perr1[0], dot(bB.X0.R() * ab, bF.X0.R() * af) - D(c0), [], U, fn + "::calcPositionErrorsVirtual")
     # ------------------------------------------------------------------ ConstantOrientation
     if want("ConstantOrientation"):
         U, fn = "ConstantOrientation", "Constraint::ConstantOrientationImpl"
@@ -268,7 +400,7 @@ def main(ctx):
         h = Holo(o, [bB, bF], 3, lambda X, V: State(X, V))
         std_clauses(B, "ConstantOrientation", h, [], U, fn)
         GB, GF = bB.X0.R() * RB, bF.X0.R() * RF
-        B.prove_eq("ConstantOrientation: (4) perr == (RFx.RBy, RFy.RBz, RFz.RBx) with both frames expressed in A (zero when the frames are aligned)",
+        peq(B, "ConstantOrientation: (4) perr == (RFx.RBy, RFy.RBz, RFz.RBx) with both frames expressed in A (zero when the frames are aligned)",
                    Vec(h.perr1), Vec(dot(GF.x(), GB.y()), dot(GF.y(), GB.z()), dot(GF.z(), GB.x())), [], U, fn + "::calcPositionErrorsVirtual")
     # ------------------------------------------------------------------ Ball
     if want("Ball"):
@@ -276,25 +408,25 @@ def main(ctx):
         bB, bF = Kin("B", "quat"), Kin("F", "free")
         p1, p2 = v3("p1"), v3("p2")
         o = C["Ball"](); o.B1, o.B2 = 0, 1
-        side = sides([bB, bF])
+        side = sides([bB, bF]); inverse_lemmas(B, [bB, bF])
         h = Holo(o, [bB, bF], 3, lambda X, V: State(X, V, stations=Pair(p1, p2)))
         ball_like(B, "Ball", "", h, 0, bB, side, U, fn)
-        std_clauses(B, "Ball", h, side, U, fn, exact=False)
-        B.prove_eq("Ball: (4) perr == (station 2 in A) - (station 1 in A)  (zero exactly when the two points coincide)", Vec(h.perr1), bF.X0 * p2 - bB.X0 * p1, side, U, fn + "::calcPositionErrorsVirtual")
+        std_clauses(B, "Ball", h, side, U, fn)
+        peq(B, "Ball: (4) perr == (station 2 in A) - (station 1 in A)  (zero exactly when the two points coincide)", Vec(h.perr1), bF.X0 * p2 - bB.X0 * p1, side, U, fn + "::calcPositionErrorsVirtual")
     # ------------------------------------------------------------------ Weld
     if want("Weld"):
         U, fn = "Weld", "Constraint::WeldImpl"
         bB, bF = Kin("B", "quat"), Kin("F", "free")
         fB, fF = XF(RM(S.mat_sym("fRB", 3, 3).m), v3("fpB")), XF(RM(S.mat_sym("fRF", 3, 3).m), v3("fpF"))
         o = C["Weld"](); o.B, o.F, o.defaultFrameB, o.defaultFrameF = 0, 1, fB, fF
-        side = sides([bB, bF])
+        side = sides([bB, bF]); inverse_lemmas(B, [bB, bF])
         h = Holo(o, [bB, bF], 6, lambda X, V: State(X, V))
-        B.prove_eq("Weld: (1) pverr == d/dt perr (orientation rows 0-2)", Vec([D(der(e)) for e in h.perr1[:3]]), Vec(h.pverr0[:3]), side, U, fn + "::calcPositionDotErrorsVirtual", timeout_ms=T)
-        B.prove_eq("Weld: (2) paerr == d/dt pverr (orientation rows 0-2)", Vec([D(der(e)) for e in h.pverr1[:3]]), Vec(h.paerr0[:3]), side, U, fn + "::calcPositionDotDotErrorsVirtual", timeout_ms=T)
+        peq(B, "Weld: (1) pverr == d/dt perr (orientation rows 0-2)", Vec([D(der(e)) for e in h.perr1[:3]]), Vec(h.pverr0[:3]), side, U, fn + "::calcPositionDotErrorsVirtual", timeout_ms=T)
+        peq(B, "Weld: (2) paerr == d/dt pverr (orientation rows 0-2)", Vec([D(der(e)) for e in h.pverr1[:3]]), Vec(h.paerr0[:3]), side, U, fn + "::calcPositionDotDotErrorsVirtual", timeout_ms=T)
         ball_like(B, "Weld", " (translation rows 3-5)", h, 3, bB, side, U, fn)
-        std_clauses(B, "Weld", h, side, U, fn, exact=False)
+        std_clauses(B, "Weld", h, side, U, fn)
         GB, GF = bB.X0.R() * fB.R(), bF.X0.R() * fF.R()
-        B.prove_eq("Weld: (4) perr == (RFx.RBy, RFy.RBz, RFz.RBx ; origin of frame F - origin of frame B, in A)", Vec(h.perr1),
+        peq(B, "Weld: (4) perr == (RFx.RBy, RFy.RBz, RFz.RBx ; origin of frame F - origin of frame B, in A)", Vec(h.perr1),
                    Vec(*([dot(GF.x(), GB.y()), dot(GF.y(), GB.z()), dot(GF.z(), GB.x())] + list((bF.X0 * fF.p() - bB.X0 * fB.p()).e))), side, U, fn + "::calcPositionErrorsVirtual")
     # ------------------------------------------------------------------ Rod (non-singular branch)
     if want("Rod"):
@@ -305,26 +437,64 @@ def main(ctx):
     # ------------------------------------------------------------------ coordinate-level constraints
     if want("Constant(Coordinate|Speed|Acceleration)"):
         coordinate(ctx, B, C)
+    # ------------------------------------------------------------------ Function-based built-ins (Custom::Implementation)
+    if want("CoordinateCoupler|SpeedCoupler|PrescribedMotion"):
+        couplers(ctx, B, C)
 
+    # guard: every fold-back R (~R y) -> y performed by the local shim is backed by a proved rotation lemma for that body
+    owners = {}
+    for b in Kin.ALL:
+        owners[id(b.X0.R())] = b; owners[id(b.X1.R())] = b
+    unbacked = [i for i in H.USED_INVERSE if i not in owners or owners[i].rot != "quat" or owners[i].name not in _LEMMA_DONE]
+    ctx.add(Obligation("guard:every R (~R y) fold-back is backed by a proved rotation lemma (%d folds)" % len(H.USED_INVERSE), "guards", "python",
+                       "discharged" if (not unbacked and (ONLY or H.USED_INVERSE)) else "undecided", 0, "lemma-chain bookkeeping guard"))
     s_ = z3.Solver(); s_.add(val(Kin("g", "quat").side[0]))
     ctx.add(Obligation("guard:unit quaternion satisfiable", "guards", "z3", "discharged" if s_.check() == z3.sat else "undecided", 0, "reachability guard"))
     ctx.checker_cmds.append("z3 (python API, QF_NRA); SMT-LIB files in out/C07/smt2; cvc5 re-check in thorough tier")
     ctx.trust("z3 4.x / cvc5 1.0 (QF_NRA)"); ctx.trust("tools/translit.py rule table (logged), tools/symlib.py shim (dual numbers) and the local shim extensions in checks/_help_c07.py")
     ctx.assume("machine arithmetic treated as mathematical (reals)")
     for a in H.assumptions(): ctx.assume(a)
+    ctx.not_decided += ["tree-level propagation through SimbodyMatterSubsystem: body kinematics X_AB/V_AB/A_AB from q,u,udot, Ancestor re-expression, packing of constrained bodies / mobilities",
+                        "the multiplier solve and the constraint Jacobian operators (calcG, multiplyByG, multiplyByGTranspose, calcPq, multiplyByPq, calcBiasFor*): 'G obtained three ways is one matrix'",
+                        "Pq == partial(perr)/partial(q) (needs the mobilizer N matrices)",
+                        "PointOnPlaneContact, SphereOnPlaneContact, SphereOnSphereContact, LineOnLineContact, user-written Custom constraints",
+                        "Rod's singular branch (r < TinyReal); Constraint::Custom::Implementation forwarding one-liners (getOneQ -> ConstraintImpl::getOneQ etc.) are treated as plumbing",
+                        "strict clauses for Ball / Weld translation rows / NoSlip1D: they FAIL (open known findings F12, F13); what is proved there is the exact relation with residual"]
     ctx.explanation = "%d functions transliterated; %d obligations." % (len(ctx.functions), len(ctx.obligations))
     return ctx.finish(replayer=lambda ob: replay(ctx, ob))
 
 
-_EXE = {}
+_NATIVE = {}
+
+
+def start_native(ctx):
+    """the native driver is needed on every run (the open known findings F12/F13 are replayed each time): build and run it in the
+    background while z3 works. Constraint.cpp / Constraint_Rod.cpp of the CURRENT tree are compiled into the driver so that the
+    inline virtuals of ConstraintImpl.h under test are the ones of this tree (they interpose the shared library's copies)."""
+    import threading
+    def work():
+        try:
+            src = os.path.join(REPO, "Simbody/src")
+            exe = native_build(ctx, "c07_replay", os.path.join(VERIF, "replay/c07_replay.cpp"), libs=True,
+                               extra_srcs=[os.path.join(src, "Constraint.cpp"), os.path.join(src, "Constraint_Rod.cpp")], extra_inc=[src])
+            rc, o, e, t = run([exe, str(ctx.seed), "strict"], 120)
+            _NATIVE["out"] = o
+        except Exception as ex:
+            _NATIVE["error"] = repr(ex)
+    th = threading.Thread(target=work, daemon=True)
+    _NATIVE["thread"] = th
+    th.start()
 
 
 def replay(ctx, ob):
-    if "exe" not in _EXE:
-        src = os.path.join(REPO, "Simbody/src")
-        _EXE["exe"] = native_build(ctx, "c07_replay", os.path.join(VERIF, "replay/c07_replay.cpp"), libs=True,
-                                   extra_srcs=[os.path.join(src, "Constraint.cpp"), os.path.join(src, "Constraint_Rod.cpp")], extra_inc=[src])
-    rc, o, e, t = run([_EXE["exe"], str(ctx.seed)], 120)
-    lines = [l for l in o.split("\n") if "MISMATCH" in l or l.startswith(("REPRODUCED", "NOT-REPRODUCED", "c07_replay"))]
-    return dict(cmd="c07_replay %d (real constraints through the public API: finite-difference derivative hierarchy, power vs multipliers, action/reaction)" % ctx.seed,
-                output="\n".join(lines)[-3000:]), bool(re.search(r"^REPRODUCED:", o, re.M))
+    if "thread" not in _NATIVE:
+        start_native(ctx)
+    _NATIVE["thread"].join(900)
+    if "out" not in _NATIVE:
+        return dict(replay_error=_NATIVE.get("error", "native driver did not finish")), None
+    cname = ob.unit.split(".")[-1]
+    strict = ob.unit.startswith("strict.")
+    lines = [l for l in _NATIVE["out"].split("\n") if l.startswith(cname + " [") and ("MISMATCH" in l or (strict and "DEVIATION" in l))]
+    return dict(cmd="c07_replay %d strict (real %s through the public API on random violated states: finite-difference derivative hierarchy, power vs multipliers, "
+                "action/reaction; lines of this constraint%s)" % (ctx.seed, cname, " incl. the strict clauses" if strict else ""),
+                output="\n".join(lines[:12])[-3000:], failing_lines=len(lines)), bool(lines)
